@@ -125,6 +125,56 @@ theorem layers_extendObject' {lhs rhs : Obj} {l : Layer} (hl : l ∈ (extendObje
 
 end
 
+/-! ### Shape -/
+
+theorem LayerShape.clone {l : Layer} (h : LayerShape l) : LayerShape (cloneLayer l) := by
+  refine ⟨?_, h.assertBase, ?_⟩
+  · intro f hf hb
+    simp only [cloneLayer, List.mem_map] at hf
+    obtain ⟨g, hg, rfl⟩ := hf
+    exact h.fieldBase g hg hb
+  · intro f hf ht
+    simp only [cloneLayer, List.mem_map] at hf
+    obtain ⟨g, hg, rfl⟩ := hf
+    simp only [cloneField] at ht ⊢
+    cases he : g.expr with
+    | some e => rfl
+    | none =>
+      rw [he] at ht
+      have := h.fieldExpr g hg ht
+      rw [he] at this; cases this
+
+theorem shape_extendObject {lhs rhs : Obj}
+    (h1 : ∀ l ∈ lhs.layers, LayerShape l) (h2 : ∀ l ∈ rhs.layers, LayerShape l) {l : Layer}
+    (hl : l ∈ (extendObject lhs rhs).layers) : LayerShape l := by
+  simp only [extendObject, List.mem_map, List.mem_append] at hl
+  obtain ⟨l0, hl0, rfl⟩ := hl
+  rcases hl0 with h | h
+  · exact (h2 l0 h).clone
+  · exact (h1 l0 h).clone
+
+theorem shape_extendObject' {lhs rhs : Obj} {l : Layer} (hl : l ∈ (extendObject lhs rhs).layers)
+    (h1 : ∀ l ∈ lhs.layers, LayerShape l) (h2 : ∀ l ∈ rhs.layers, LayerShape l) : LayerShape l :=
+  shape_extendObject h1 h2 hl
+
+theorem LayerShape.setEnv {l : Layer} (h : LayerShape l) (e : Option EId) : LayerShape { l with env := e } :=
+  ⟨h.fieldBase, h.assertBase, h.fieldExpr⟩
+
+/-- caching thunks in fields keeps the shape -/
+theorem LayerShape.mapFields {l : Layer} (h : LayerShape l) (g : Field → Field)
+    (hg : ∀ f, (g f).baseEnv = f.baseEnv ∧ (g f).expr = f.expr ∧ ((g f).thunk = none → f.thunk = none)) :
+    LayerShape { l with fields := l.fields.map g } := by
+  refine ⟨?_, h.assertBase, ?_⟩
+  · intro f hf hb
+    simp only [List.mem_map] at hf
+    obtain ⟨f0, hf0, rfl⟩ := hf
+    exact h.fieldBase f0 hf0 ((hg f0).1 ▸ hb)
+  · intro f hf ht
+    simp only [List.mem_map] at hf
+    obtain ⟨f0, hf0, rfl⟩ := hf
+    rw [(hg f0).2.1]
+    exact h.fieldExpr f0 hf0 ((hg f0).2.2 ht)
+
 theorem set_eq_self {α} (l : List α) (i : Nat) (x : α) (h : l[i]? = some x) : l.set i x = l := by
   apply List.ext_getElem?
   intro j
